@@ -224,6 +224,12 @@ func (r *rewriter) rewriteFile(f *ast.File) {
 				size := ast.Expr(&ast.BasicLit{Kind: token.INT, Value: "0"})
 				if len(x.Args) > 1 {
 					size = x.Args[1]
+					// make accepts any integer type for the size, MakeChan takes an int
+					if tv, ok := r.info.Types[x.Args[1]]; ok && tv.Value == nil {
+						if b, isB := tv.Type.Underlying().(*types.Basic); !isB || b.Kind() != types.Int {
+							size = call(ast.NewIdent("int"), size)
+						}
+					}
 				}
 				var e ast.Expr = call(&ast.IndexExpr{X: vrtSel("MakeChan"), Index: elem}, size)
 				if conv {
